@@ -130,13 +130,14 @@ Definition scale_resolution (r : f3) (factors : t3) : f3 :=
 
 Definition mk_scale (r : f3) (u : list N * fl) (c : scale_core) : outcome scale_out :=
   let res := scale_resolution r (sc_factors c) in
-  bind (format_length (fmin3 res) u) (fun key =>
+  (* /repo b3f6345: the key is format_length(best_axis_resolution * 2 ** level) *)
+  bind (format_length (fmul (fmin3 r) (pow2f (sc_level c))) u) (fun key =>
   Ok {| so_key := key; so_size := sc_size c; so_res := res;
         so_chunks := map3 (fun e => 2 ^ e) (sc_chunk_exp c) |}).
 
 (* In the code the key of a level is formatted before that level's assertions
-   are evaluated, and format_length cannot fail inside the modelled domain, so
-   evaluating all assertions first (scales_core) gives the same outcome. *)
+   are evaluated; no assertion can fail any more and format_length cannot fail
+   inside the modelled domain, so the order is immaterial. *)
 Definition gen_scales (full : t3) (res : fl * fl * fl) (target max_scales : Z)
   : outcome (list scale_out) :=
   bind (target_exponent target) (fun t =>
@@ -154,16 +155,16 @@ Definition dyadic_eqb (m1 : positive) (e1 : Z) (m2 : positive) (e2 : Z) : bool :
 Definition product_is (x : spec_float) (m0 : positive) (e0 : Z) : bool :=
   match x with S754_finite false m e => dyadic_eqb m e m0 e0 | _ => false end.
 
-(* The length formatted for level l is exactly 2^l times the length formatted
-   for level 0 (and the doubled length probed by choose_unit_for_key is twice
-   it).  This holds when no axis resolution was rounded UP to its power of two
-   (the finest axis then stays the minimum at every level) and no product
-   leaves the normal range; it fails e.g. for 1.2 : 1.5 : 0.8. *)
+(* The length formatted for level l, (finest * 2^l) * unit factor in binary64,
+   is exactly 2^l times the length formatted for level 0.  Both products are
+   multiplications by a power of two of a binary64 value, so this can only
+   fail when a product leaves the normal range of binary64 (overflow, or a
+   subnormal result at level 0 that becomes normal later). *)
 Definition keys_guard_at (r : f3) (u : list N * fl) (cores : list scale_core) : bool :=
   match fmul (fmin3 r) (sf_of (snd u)) with
   | S754_finite false m0 e0 =>
       product_is (fmul (fmul (fmin3 r) two) (sf_of (snd u))) m0 (e0 + 1) &&
-      forallb (fun c => product_is (fmul (fmin3 (scale_resolution r (sc_factors c))) (sf_of (snd u)))
+      forallb (fun c => product_is (fmul (fmul (fmin3 r) (pow2f (sc_level c))) (sf_of (snd u)))
                                    m0 (e0 + sc_level c)) cores
   | _ => false
   end.
